@@ -121,6 +121,7 @@ class Session:
         self.oracle_failures = []
         self.stats = {}
         self.nlabels = 0
+        self.history = {}
 
     # ---- labels
     def label_of(self, o, oid):
@@ -153,6 +154,10 @@ class Session:
         after = [st.stamp() for st in self.stores]
         wrote = [i for i, (a, b) in enumerate(zip(before_stamps, after)) if a != b]
         contents = self.contents()
+        for i_, c_ in enumerate(contents):
+            h_ = self.history.setdefault(i_, [])
+            if c_ is not MISSING and (not h_ or h_[-1] != c_) and len(h_) < 12:
+                h_.append(copy.deepcopy(c_))
         live = self.live_labels()
         term = ("{| k_op := %s; k_exp := %s; k_res := %s; k_wrote := [%s]; k_live := [%s] |}" % (
             kop, kexp, self.c_contents(contents), ";".join(f"{w}%nat" for w in wrote),
@@ -417,6 +422,16 @@ class Session:
                 op = self.g.dict_read(plain) if want_read else self.g.dict_mut(plain, p.get("vdepth", 2))
             if not want_read and self.g.r.random() < p.get("invalid", 0):
                 op = self.inject_invalid(op)
+            if self.g.r.random() < p.get("retype", 0.08):
+                from gen import retype
+                rt, rp = retype(plain, self.g.r)
+                if rt is not None and rp:
+                    if isinstance(data, list):
+                        op = ("LReset", rt) if self.g.r.random() < 0.6 else ("LSet", rp[0], rt[rp[0]])
+                    else:
+                        r3 = self.g.r.random()
+                        op = ("DReset", rt) if r3 < 0.35 else (("DUpdate", {rp[0]: rt[rp[0]]}) if r3 < 0.8 else ("DSet", rp[0], rt[rp[0]]))
+                    self.count("retype")
             if p.get("no_root_clear") and lbl in live and len(live[lbl][1]) == 0 and op[0] in ("LClear", "DClear"):
                 continue
             try:
@@ -461,6 +476,12 @@ class Session:
     def ext_value(self, si):
         """Out-of-band rewrite: mutate the current content at a random position, any kind -> any kind."""
         cur = self.stores[si].read()
+        hist = self.history.setdefault(si, [])
+        if cur is not MISSING and (not hist or hist[-1] != cur):
+            hist.append(copy.deepcopy(cur))
+        if len(hist) > 1 and self.g.r.random() < 0.2:
+            self.count("ext-restore")
+            return copy.deepcopy(self.g.r.choice(hist[:-1]))      # put an earlier content back, byte for byte
         if cur is MISSING or self.g.r.random() < 0.15:
             return self.g.container(self.kind, 3)
         cur = copy.deepcopy(cur)
@@ -505,10 +526,11 @@ class Session:
         elif r < 0.4:
             new = self.g.scalar()
         elif r < 0.55:
-            # type-only change
-            new = {True: 1, False: 0}.get(old, old) if isinstance(old, bool) else (
-                float(old) if isinstance(old, int) and abs(old) < 2 ** 50 else (
-                    int(old) if isinstance(old, float) and old == int(old) else self.g.scalar()))
+            # type-only change (True <-> 1 <-> 1.0)
+            from gen import retype_leaf
+            new = retype_leaf(old)
+            if new is None:
+                new = self.g.scalar()
         elif r < 0.7:
             new = self.g.vlist(2)
         elif r < 0.85:
